@@ -703,6 +703,8 @@ class Symex:
             return it if isinstance(it, list) else list(it)
         if isinstance(it, T):
             return [T("elem", it, k) for k in range(self.unroll)]
+        if isinstance(it, Obj) and isinstance(it.attrs.get("_fields"), tuple):
+            return [it.attrs[f] for f in it.attrs["_fields"]]
         if isinstance(it, Atom) and it.attrs.get("_scalar"):
             raise Raised("TypeError", f"{it!r} is not iterable", node)
         if isinstance(it, Obj):
@@ -1309,6 +1311,11 @@ class Symex:
                 obj = obj.term
             return T("slice", _freeze(obj), lo, hi, st)
         k = self.ev(n.slice)
+        if isinstance(obj, Obj) and isinstance(obj.attrs.get("_fields"), tuple) and isinstance(k, int):
+            try:
+                return obj.attrs[obj.attrs["_fields"][k]]
+            except IndexError:
+                raise Raised("IndexError", None, n)
         if isinstance(obj, Obj):
             obj = obj.term
         if isinstance(obj, T) or isinstance(k, T):
@@ -1632,6 +1639,10 @@ class Symex:
                         return r
             init = self.find_method(f"{fv.module.name}:{fv.qual}", "__init__") or \
                 self.find_method(f"{fv.module.name}:{fv.qual}", "__new__")
+            if init is None:
+                rec = self._record_fields(fv)
+                if rec is not None:
+                    return self._make_record(fv, rec, args, kw, node)
             return self.opaque_call(fv.short, args, kw, init[0] if init else None, skip_self=True)
         if isinstance(fv, Ext):
             return self.ext_call(fv.name, args, kw, node)
@@ -1644,6 +1655,48 @@ class Symex:
         if callable(fv):
             return fv(self, list(args), kw)
         self.unsupported(node, f"call of {type(fv).__name__}")
+
+    def _record_fields(self, cref):
+        """Fields [(name, default node | None)] of a plain record class: a typing.NamedTuple subclass, or (when the
+        option ``records`` is set) a @dataclass without __post_init__; None for every other class."""
+        c = cref.module.classes.get(cref.qual)
+        if c is None:
+            return None
+        bases = {U(b).split(".")[-1] for b in c.bases}
+        decos = {U(d).split(".")[-1].split("(")[0] for d in c.decorator_list}
+        is_nt = "NamedTuple" in bases
+        is_dc = "dataclass" in decos and getattr(self, "records", False) and \
+            self.find_method(f"{cref.module.name}:{cref.qual}", "__post_init__") is None
+        if not (is_nt or is_dc):
+            return None
+        fields = [(st.target.id, st.value) for st in c.body if isinstance(st, ast.AnnAssign) and isinstance(st.target, ast.Name)]
+        return ("namedtuple" if is_nt else "dataclass", fields)
+
+    def _make_record(self, cref, rec, args, kw, node):
+        kind, fields = rec
+        names = [n for n, _ in fields]
+        if len(args) > len(names) or any(k not in names for k in kw):
+            raise Raised("TypeError", None, node)
+        vals = dict(zip(names, args))
+        for k, v in kw.items():
+            if k in vals:
+                raise Raised("TypeError", None, node)
+            vals[k] = v
+        for n, d in fields:
+            if n not in vals:
+                if d is None:
+                    raise Raised("TypeError", None, node)
+                saved = (self.frames, self.module)
+                self.frames, self.module = [{}], cref.module
+                try:
+                    vals[n] = self.ev(d)
+                finally:
+                    self.frames, self.module = saved
+        self.fresh_n += 1
+        o = Obj(f"{cref.module.name}:{cref.qual}", f"<{cref.short} #{self.fresh_n}>", **vals)
+        if kind == "namedtuple":
+            o.attrs["_fields"] = tuple(names)
+        return o
 
     def bind(self, fn, args, kw, skip_self=False, fill_defaults=False, lenient=False, preset=None):
         a = fn.args
@@ -1817,8 +1870,8 @@ class Symex:
             for x in self.iterate(args[0], node):
                 acc = self.binop(ast.Mult(), acc, x, node)
             return acc
-        if name in _OPERATOR and len(args) == 2:
-            return self.binop(_OPERATOR[name](), args[0], args[1], node)
+        if (name in _OPERATOR or "operator." + name in _OPERATOR) and len(args) == 2:
+            return self.binop(_OPERATOR.get(name, _OPERATOR.get("operator." + name))(), args[0], args[1], node)
         if name in ("operator.neg", "neg") and len(args) == 1:
             return self.binop(ast.Mult(), -1, args[0], node)
         if name in ("chain", "itertools.chain") and all(not isinstance(a, T) for a in args):
@@ -1869,7 +1922,7 @@ class Symex:
             return [self.call_value(args[0], list(self.iterate(x, node)), {}, node) for x in self.iterate(args[1], node)]
         if short == "accumulate" and name in ("accumulate", "itertools.accumulate") and args and not isinstance(args[0], T):
             f = args[1] if len(args) > 1 else kw.get("func")
-            out = []
+            out = [kw["initial"]] if kw.get("initial") is not None else []
             for x in self.iterate(args[0], node):
                 out.append(x if not out else (self.call_value(f, [out[-1], x], {}, node) if f is not None
                                                else self.binop(ast.Add(), out[-1], x, node)))
